@@ -571,4 +571,121 @@ theorem sound (r : Run) (hs : r.o.safety = false) (hc : r.o.errorExitCode % 256 
           · omega
       exact file_culprit hs hk h2 hx
 
+/- ---- any arrival order of the workers' messages (audit follow-up) ----------------------------------------------- -/
+
+
+theorem stdInput_eq (r : Run) : stdInput r = stdInputOf r (fromFiles r) := rfl
+theorem printed_eq (r : Run) : printed r = printedOf r (fromFiles r) := rfl
+
+theorem fromFiles_all {r : Run} (hs : r.o.safety = false) {e : Emit} (h : e ∈ fromFiles r) : e.f ∈ allFindings r := by
+  simp only [fromFiles, List.mem_flatMap] at h
+  rcases h with ⟨s, h1, h2⟩
+  unfold allFindings
+  simp only [List.mem_append]
+  exact Or.inl (Or.inl (Or.inl (fileState_from hs h1 h2)))
+
+theorem stdInputOf_cases {r : Run} {es : List Emit} {e : Emit} (h : e ∈ stdInputOf r es) :
+    (r.o.executor = .single ∧ e ∈ es) ∨ (r.o.executor ≠ .single ∧ e ∈ hasToLog r.o es) ∨ e ∈ (main2 r).out ∨
+    (r.unmatchedGate = true ∧ ∃ u ∈ r.unmatched, e = ⟨u, false⟩) := by
+  unfold stdInputOf at h
+  simp only [List.mem_append] at h
+  rcases h with (h | h) | h
+  · by_cases hx : r.o.executor = .single
+    · left; simp only [hx, beq_self_eq_true, if_true] at h; exact ⟨hx, h⟩
+    · right; left
+      have : (r.o.executor == Executor.single) = false := by simpa using hx
+      simp only [this, Bool.false_eq_true, if_false] at h
+      exact ⟨hx, h⟩
+  · exact Or.inr (Or.inr (Or.inl h))
+  · right; right; right
+    split at h
+    · rename_i hg
+      simp only [List.mem_map] at h
+      rcases h with ⟨u, h1, h2⟩
+      exact ⟨hg, u, h1, h2.symm⟩
+    · simp at h
+
+theorem stdInputOf_all {r : Run} (hs : r.o.safety = false) {es : List Emit} (hes : ∀ e, e ∈ es → e ∈ fromFiles r) {e : Emit}
+    (h : e ∈ stdInputOf r es) : e.f ∈ allFindings r := by
+  rcases stdInputOf_cases h with ⟨_, h1⟩ | ⟨_, h1⟩ | h1 | ⟨_, u, h1, h2⟩
+  · exact fromFiles_all hs (hes e h1)
+  · exact fromFiles_all hs (hes e (gate_sub _ _ _ _ _ _ h1).1)
+  · unfold allFindings
+    simp only [List.mem_append]
+    rcases main2_from r hs h1 with h2 | h2
+    · exact Or.inl (Or.inl (Or.inr h2))
+    · exact Or.inl (Or.inr h2)
+  · subst h2; unfold allFindings; simp only [List.mem_append]; exact Or.inr h1
+
+theorem culprit_printedOf {r : Run} (hs : r.o.safety = false) (hk : keyCoherent r = true) {es : List Emit}
+    (hes : ∀ e, e ∈ es → e ∈ fromFiles r) {e : Emit} (he : e ∈ stdInputOf r es) (hint : e.internal = false)
+    (hn : e.f.nofail = false) : ∃ f ∈ printedOf r es, f.nofail = false := by
+  rcases gate_rep r.o.emitDuplicates false (fun _ => true) (stdInputOf r es) [] e he hint rfl with h | ⟨e', h1, _, h3⟩
+  · simp at h
+  · refine ⟨e'.f, ?_, ?_⟩
+    · simp only [printedOf, List.mem_map]; exact ⟨e', h1, rfl⟩
+    · have h4 := (gate_sub _ _ _ _ _ _ h1).1
+      rw [key_nofail hk (stdInputOf_all hs hes h4) (stdInputOf_all hs hes he) h3]; exact hn
+
+/-- which messages can make a printed, not exitcode-suppressed finding: independent of the arrival order -/
+def Cand (r : Run) : Prop :=
+  (∃ e ∈ fromFiles r, e.internal = false ∧ e.f.nofail = false ∧
+      (r.o.executor = .single ∨ (e.f.nomsgGlobal = false ∧ e.f.emptyText = false))) ∨
+  (∃ e ∈ (main2 r).out, e.internal = false ∧ e.f.nofail = false) ∨
+  (r.unmatchedGate = true ∧ ∃ u ∈ r.unmatched, u.nofail = false)
+
+theorem printedOf_iff_cand (r : Run) (hs : r.o.safety = false) (hk : keyCoherent r = true) (hu : unmatchedPlain r = true)
+    (es : List Emit) (hes : ∀ e, e ∈ es ↔ e ∈ fromFiles r) :
+    (∃ f ∈ printedOf r es, f.nofail = false) ↔ Cand r := by
+  have hes1 : ∀ e, e ∈ es → e ∈ fromFiles r := fun e h => (hes e).mp h
+  constructor
+  · rintro ⟨f, hf, hn⟩
+    simp only [printedOf, List.mem_map] at hf
+    rcases hf with ⟨e, he, rfl⟩
+    have hsub := gate_sub _ _ _ _ _ _ he
+    have hint : e.internal = false := by
+      cases h : e.internal
+      · rfl
+      · have := hsub.2.1 h; simp at this
+    rcases stdInputOf_cases hsub.1 with ⟨hx, h1⟩ | ⟨hx, h1⟩ | h1 | ⟨hg, u, h1, h2⟩
+    · exact Or.inl ⟨e, hes1 e h1, hint, hn, Or.inl hx⟩
+    · have h3 := gate_sub _ _ _ _ _ _ h1
+      have hp := h3.2.2 hint
+      simp only [Bool.and_eq_true, Bool.not_eq_true'] at hp
+      exact Or.inl ⟨e, hes1 e h3.1, hint, hn, Or.inr hp⟩
+    · exact Or.inr (Or.inl ⟨e, h1, hint, hn⟩)
+    · subst h2; exact Or.inr (Or.inr ⟨hg, u, h1, hn⟩)
+  · rintro (⟨e, h1, hint, hn, hc⟩ | ⟨e, h1, hint, hn⟩ | ⟨hg, u, h1, hn⟩)
+    · have hmem : e ∈ es := (hes e).mpr h1
+      by_cases hsingle : r.o.executor = .single
+      · refine culprit_printedOf hs hk hes1 (e := e) ?_ hint hn
+        unfold stdInputOf
+        simp only [hsingle, beq_self_eq_true, if_true, List.mem_append]
+        exact Or.inl (Or.inl hmem)
+      · rcases hc with hc | hc
+        · exact absurd hc hsingle
+        · have hp : (fun f : Finding => !f.nomsgGlobal && !f.emptyText) e.f = true := by simp [hc.1, hc.2]
+          rcases gate_rep r.o.emitDuplicates true (fun f : Finding => !f.nomsgGlobal && !f.emptyText) _ [] e hmem hint hp with h6 | ⟨e', h6, h7, h8⟩
+          · simp at h6
+          · have hin : e' ∈ stdInputOf r es := by
+              unfold stdInputOf
+              have : (r.o.executor == Executor.single) = false := by simpa using hsingle
+              simp only [this, Bool.false_eq_true, if_false, List.mem_append]
+              exact Or.inl (Or.inl h6)
+            refine culprit_printedOf hs hk hes1 hin h7 ?_
+            rw [key_nofail hk (stdInputOf_all hs hes1 hin) (fromFiles_all hs h1) h8]; exact hn
+    · refine culprit_printedOf hs hk hes1 (e := e) ?_ hint hn
+      unfold stdInputOf
+      simp only [List.mem_append]
+      exact Or.inl (Or.inr h1)
+    · have hpl : u.internal = false ∧ u.emptyText = false := by
+        simp only [unmatchedPlain, List.all_eq_true, Bool.and_eq_true, Bool.not_eq_true'] at hu
+        exact hu u h1
+      refine culprit_printedOf hs hk hes1 (e := ⟨u, false⟩) ?_ ?_ hn
+      · unfold stdInputOf
+        simp only [hg, if_true, List.mem_append, List.mem_map]
+        exact Or.inr ⟨u, h1, rfl⟩
+      · simp [Emit.internal, hpl.1]
+
+
 end Cppcheck.ExitCode
